@@ -40,6 +40,10 @@ INSTRUMENTED = (P, G, A, E, R, X)
 # on the real code on every run, see probe_open_window).
 Z = 13113
 FILL = 16000
+# Measurement types that carry `details` (MeasurementDetails): P1 time in details.p1_time, and get_system_time_ns() that is
+# never None (the reception time when details.measurement_time_source says so, else NaN) although the class has no
+# system_time_ns member.  Used in the logs of run_details() only (the Lean model's registry has no such kind of type).
+I, W = 11002, 11125
 DEFAULT_OPEN_WINDOW = 1 << 20
 MAX_OPEN_WINDOW = 8 << 20
 _BASE_ATTRS = ('message_type', 'message_class', 'params', 'messages', 'message_bytes', 'message_index', 'num_messages')
@@ -86,6 +90,19 @@ def build_message(F, t, ord_, t2):
     elif t == Z:
         m = M.PlatformStorageDataMessage()
         m.data = int(ord_).to_bytes(4, 'little') + bytes(FILL - 4)
+    elif t in (I, W):
+        m = M.RawIMUOutput() if t == I else M.RawWheelSpeedOutput()
+        if t == I:
+            m.temperature_degc = float(ord_)
+        else:
+            m.gear = M.GearType(ord_ % 4)
+        if t2 is not None:
+            m.details.p1_time = M.Timestamp(t2 / 2.0)
+        if ord_ % 3 == 0:
+            # every third one was timestamped on reception: the only ones with a valid system time
+            m.details.measurement_time_source = M.SystemTimeSource.TIMESTAMPED_ON_RECEPTION
+            m.details.measurement_time = M.Timestamp(100.0 + ord_)
+        return m
     else:
         raise ValueError(t)
     if t2 is not None:
@@ -107,6 +124,8 @@ def ident(m):
         v = float(m.reset_mask)
     elif n == 'PlatformStorageDataMessage':
         v = float(int.from_bytes(bytes(m.data[:4]), 'little'))
+    elif n == 'RawIMUOutput':
+        v = float(m.temperature_degc)
     if v is None or np.isnan(v):
         return 'd%d' % int(round(float(m.p1_time) * 2))
     return str(int(round(v)))
@@ -1028,6 +1047,10 @@ def state_outside_cache_culprit(env, hist):
 
 
 def transparency_signature(env, hist):
+    if hist[-1]['rsys'] and not any(c.get('reopen') for c in hist):
+        out, _ = env.run_history(hist)
+        if details_culprit(env, hist[-1], out[-1], env.fresh(hist[-1])):
+            return DETAILS_CACHE_SIG
     if any(c.get('reopen') for c in hist):
         plain = [dict(c, reopen=None) for c in hist]
         if all(c.get('reopen') != 'other' for c in hist) and not transparent(env, plain):
@@ -1134,6 +1157,7 @@ def check_fresh_spec(ctx, env, c, fresh_text):
         ctx.violation('C12/fresh-read-differs-from-reader', 'fresh read(%s) returned %s; the reader under the same filters raises %s' %
                       (describe(c), fresh_text[:300], reader_raises), replay_obj(env, [c]))
         return
+    bad_types = set()
     if c['inorder']:
         got = fresh_text.split('/')[1]
         want = lst([str(o) for _, o in exp])
@@ -1141,18 +1165,26 @@ def check_fresh_spec(ctx, env, c, fresh_text):
         if c['ridx'] and fresh_text.split('/')[2] != want:
             bad = True
     else:
-        bad = False
         for part in fresh_text.split('|')[1:]:
             f = part.split('/')
             t = int(f[0])
             ids = [o for tt, o in exp if tt == t]
             want = lst([str(o) for o in ids])
+            if t == W:
+                # no field for an ordinal: compare the count and, when requested, the message index
+                if not (c['numpy'] and not c['keep']) and (f[1] == '-') != (not ids):
+                    bad_types.add(t)
+                if not (c['numpy'] and not c['keep']) and f[1] != '-' and len(f[1].split('.')) != len(ids):
+                    bad_types.add(t)
+                if c['ridx'] and not (c['numpy'] and c['rmnan']) and f[2] != want:
+                    bad_types.add(t)
+                continue
             numpy = c['numpy']
             if not (numpy and not c['keep']):
                 if f[1] != want:
-                    bad = True
+                    bad_types.add(t)
             if c['ridx'] and not (numpy and c['rmnan'] and t in (P, G, A)) and f[2] != want:
-                bad = True
+                bad_types.add(t)
             if numpy and t in INSTRUMENTED:
                 wa = [o for o in ids if not (c['rmnan'] and t in (P, G, A) and env.spec[o][1] is None)]
                 if f[3] == '~' and not wa:
@@ -1160,12 +1192,16 @@ def check_fresh_spec(ctx, env, c, fresh_text):
                     # numpy conversion, so the (empty) entries carry no arrays at all.  Not a statement of C12.
                     ctx.count('fresh_numpy_not_converted_nothing_to_read')
                 elif f[3] != lst([str(o) for o in wa]):
-                    bad = True
+                    bad_types.add(t)
+        bad = bool(bad_types)
     if not bad:
         return
     n = c['max']
     sig = 'C12/fresh-read-differs-from-reader'
-    if n is not None:
+    if c['rsys'] and bad_types and bad_types <= details_types(env.F):
+        # require_system_time and only types with measurement details differ
+        sig = DETAILS_FRESH_SIG
+    elif n is not None:
         got = returned_ids(c, fresh_text)
         first = full[:abs(n)]
         if n < 0 and len(full) > abs(n) and got == set(str(o) for _, o in first) and first != exp:
@@ -1219,8 +1255,311 @@ def replay_obj(env, hist):
     return obj
 
 
+# ---- argument objects that the caller uses again --------------------------------------------------------
+# A caller keeps its argument objects - a TimeRange ("the first minute of every log"), a list or set of message types, of
+# source identifiers - and passes the same objects to several reads: on one loader, on two loaders that are alive at the
+# same time (one per log), and on a loader on which open() was called with another log.  Every such read must return what a
+# fresh loader (given new, equal objects) returns for the log it is made on, and must leave the objects as they were:
+# whatever a read writes into an argument becomes part of the next call's arguments.
+SHARED_KEYS = ('message_types', 'time_range', 'source_ids', 'aligned_message_types')
+SRC_FORMS = {'list': list, 'set': set, 'tuple': tuple}
+SHARED_PATTERNS = [
+    [(1, None), (2, None)], [(2, None), (1, None)], [(1, None), (2, None), (1, None)], [(1, None), (2, None), (2, None)],
+    [(1, None), (1, 'B')], [(1, None), (1, 'B'), (1, 'A')], [(2, None), (2, 'A')], [(1, None), (1, 'A'), (1, 'B')],
+    [(1, None), (2, None), (1, 'B'), (2, 'A')], [(1, None), (1, None), (2, None)], [(2, None), (1, 'B'), (1, 'A')],
+]
+
+
+def arg_state(x):
+    """A comparable deep copy of an argument object: every member of a TimeRange (bounds, absolute, p1_t0, the in-range
+    latches), the container type and the elements of a list / tuple / set / array."""
+    n = type(x).__name__
+    if n == 'TimeRange':
+        return ('TimeRange', tuple((k, arg_state(v)) for k, v in sorted(vars(x).items())))
+    if n == 'Timestamp':
+        return ('Timestamp', repr(float(x)))
+    if isinstance(x, np.ndarray):
+        return ('ndarray', x.dtype.str, x.shape, x.tobytes())
+    if isinstance(x, (set, frozenset)):
+        return (n, tuple(sorted(repr(arg_state(e)) for e in x)))
+    if isinstance(x, (list, tuple)):
+        return (n, tuple(arg_state(e) for e in x))
+    if isinstance(x, type):
+        return ('class', x.__name__)
+    if x is None or isinstance(x, (bool, int, float, str)):
+        return (n, repr(x))
+    return (n, repr(x))
+
+
+def state_text(st):
+    if st[0] == 'TimeRange':
+        return 'TimeRange(%s)' % ', '.join('%s=%s' % (k, v[1] if len(v) == 2 else v) for k, v in st[1])
+    return repr(st)[:200]
+
+
+def gen_shared_session(rng, envA, envB):
+    """(call, container of source_ids, steps): the call's message_types / time_range / source_ids / aligned_message_types
+    are built once; steps = [{'loader': 1|2, 'open': None|'A'|'B', 'over': {scalar arguments changed in this step}}];
+    loader 1 is opened on log A, loader 2 on log B, both before the first step."""
+    nan = envA.untimed_p1 or envB.untimed_p1
+    c = gen_call(rng, envA.spec, nan, envA.avail)
+    c['ic'], c['reopen'] = False, None
+    times = [s[1] for s in envA.spec if s[1] is not None]
+    if times and rng.random() < 0.9:
+        lo = min(times)
+        u, w = rng.choice(times), rng.choice(times)
+        a, b = min(u, w), max(u, w) + rng.choice([1, 2, 4])
+        kind = rng.choice(['rel', 'rel', 'rel', 'rel', 'rel-t0', 'abs'])
+        a, b = rng.choice([(a, b), (a, b), (a, None), (None, b), (lo + 2, lo + 6)])
+        base = 0 if kind == 'abs' else lo
+        sv = None if a is None else max(0.0, (a - base) / 2.0)
+        ev = None if b is None else (b - base) / 2.0
+        if kind == 'rel-t0':
+            tb = [s[1] for s in envB.spec if s[1] is not None]
+            c['tr'] = (sv, ev, False, rng.choice([lo, lo + 2] + ([min(tb)] if tb else [])))
+        else:
+            c['tr'] = (sv, ev, kind == 'abs')
+    if c['types'] is not None:
+        c['tform'] = rng.choice(['enum', 'enum', 'set', 'class', 'int', 'tuple', 'ndarray'])
+    if c['src'] is None and rng.random() < 0.35:
+        c['src'] = rng.choice(src_choices(envA.spec, envA.avail))
+    if rng.random() < 0.6:
+        c['max'] = None
+    steps = []
+    for n, op in rng.choice(SHARED_PATTERNS):
+        over = {}
+        if steps and rng.random() < 0.3:
+            f = gen_call(rng, envA.spec, nan, envA.avail)
+            for k in rng.sample(['max', 'numpy', 'keep', 'ridx', 'ic', 'inorder', 'rp1'], rng.choice([1, 1, 2])):
+                over[k] = f[k]
+        steps.append({'loader': n, 'open': op, 'over': over})
+    return c, rng.choice(sorted(SRC_FORMS)), steps
+
+
+def run_shared_session(F, envA, envB, c, src_form, steps, share=True):
+    """Per step: the result text, the log read, the call, and the arguments whose state differs from the deep copy taken
+    before the call (with the two states).  share=False: the same reads with new, equal objects in every call."""
+    def objects():
+        kw0 = kwargs_of(F, c)
+        if 'source_ids' in kw0:
+            kw0['source_ids'] = SRC_FORMS[src_form](kw0['source_ids'])
+        return {k: kw0[k] for k in SHARED_KEYS if k in kw0}
+    objs = objects()
+    loaders = {1: envA.loader(), 2: envB.loader()}
+    on = {1: envA, 2: envB}
+    recs = []
+    for st in steps:
+        n = st['loader']
+        if st.get('open'):
+            on[n] = envA if st['open'] == 'A' else envB
+            loaders[n].open(on[n].path, num_threads=1)
+            on[n].assert_static(loaders[n])
+        cs = dict(c, **(st.get('over') or {}))
+        kw = kwargs_of(F, cs)
+        if not share:
+            objs = objects()
+        kw.update(objs)
+        before = {k: arg_state(v) for k, v in objs.items()}
+        try:
+            res = loaders[n].read(**kw)
+            text = canon_result(F, res, on[n].order(cs))
+        except Exception as e:
+            res, text = None, 'E:%s' % type(e).__name__
+        after = {k: arg_state(v) for k, v in objs.items()}
+        recs.append({'text': text, 'env': on[n], 'call': cs, 'res': res,
+                     'changed': [(k, before[k], after[k]) for k in objs if before[k] != after[k]]})
+    return recs
+
+
+def shared_replay(envA, envB, c, src_form, steps):
+    return {'log': [list(s) for s in envA.spec], 'other_log': [list(s) for s in envB.spec], 'shared_call': c,
+            'source_ids_container': src_form, 'steps': steps,
+            'how': 'log entries are (type, P1 time in half seconds or null, source id); the message_types / time_range / '
+                   'source_ids / aligned_message_types objects of shared_call are built once and passed to every step; loader 1 '
+                   'is a DataLoader opened on log, loader 2 one opened on other_log, both alive from the start; a step calls '
+                   'open(A = log / B = other_log) on its loader if "open" is set, then read() with the shared objects and the '
+                   'scalar arguments of shared_call changed as "over" says; expected: the result of the same call with new '
+                   'objects on a loader freshly opened on the log the step reads, and the objects unchanged'}
+
+
+def step_text(st):
+    return 'loader %d%s: read(%s)' % (st['loader'], (' open(%s)' % st['open']) if st.get('open') else '',
+                                     ', '.join('%s=%s' % (KEY_NAMES[k], v) for k, v in (st.get('over') or {}).items()) or 'same arguments')
+
+
+def judge_shared_session(ctx, F, envA, envB, c, src_form, steps):
+    def first_bad(recs, what):
+        for i, r in enumerate(recs):
+            if (what == 'modified' and r['changed']) or (what == 'differs' and r['text'] != r['env'].fresh(r['call'])):
+                return i
+        return None
+    recs = run_shared_session(F, envA, envB, c, src_form, steps)
+    ctx.count('shared_argument_sessions')
+    ctx.count('shared_argument_reads', len(recs))
+    ctx.count('shared_argument_reads_returning_messages',
+              sum(1 for r in recs if any(ch.isdigit() for ch in r['text'].split('|', 1)[-1].replace('/', ' '))))
+    ctx.count('shared_sessions_two_loaders_alive', int(len(set(st['loader'] for st in steps)) == 2))
+    ctx.count('shared_sessions_open_on_a_used_loader', int(any(st.get('open') for st in steps)))
+    tr = c['tr']
+    ctx.count('shared_time_range_' + ('none' if tr is None else 'absolute' if tr[2] else
+                                     'relative_explicit_t0' if len(tr) > 3 else 'relative_without_t0'))
+    ctx.count('shared_message_types_as_' + (c['tform'] if c['types'] is not None else 'none'))
+    ctx.count('shared_source_ids_as_' + (src_form if c['src'] is not None else 'none'))
+    ctx.case('shared %s' % json.dumps(shared_replay(envA, envB, c, src_form, steps), sort_keys=True, default=str),
+             nontrivial=len(recs) >= 2 and any(ch.isdigit() for ch in recs[-1]['text'].split('|', 1)[-1].replace('/', ' ')))
+    for what in ('differs', 'modified'):
+        i = first_bad(recs, what)
+        if i is not None:
+            report_shared(ctx, F, envA, envB, c, src_form, steps, i, what, first_bad)
+
+
+def report_shared(ctx, F, envA, envB, c, src_form, steps, i, what, first_bad):
+    # smallest sub-sequence of the earlier steps after which the step still fails in the same way
+    small = steps[:i + 1]
+    done = False
+    for k in range(0, i + 1):
+        for sub in itertools.combinations(range(i), k):
+            cand = [steps[j] for j in sub] + [steps[i]]
+            if first_bad(run_shared_session(F, envA, envB, c, src_form, cand), what) == len(cand) - 1:
+                small, done = cand, True
+                break
+        if done:
+            break
+    recs = run_shared_session(F, envA, envB, c, src_form, small)
+    r = recs[-1]
+    hist = ' ; '.join(step_text(st) for st in small)
+    if what == 'modified':
+        k, b, a = r['changed'][0]
+        ctx.violation('C12/read-modifies-its-argument:%s' % k,
+                      'shared arguments %s; %s: the %s object passed to read() was %s before the call and is %s after it (the '
+                      'caller\'s next read with "the same arguments" is a different call)' %
+                      (describe(c), hist, k, state_text(b), state_text(a)), shared_replay(envA, envB, c, src_form, small))
+        return
+    fresh_objs = run_shared_session(F, envA, envB, c, src_form, small, share=False)
+    if fresh_objs[-1]['text'] == r['env'].fresh(r['call']):
+        mod = sorted(set(k for q in recs for k, _, _ in q['changed']))
+        sig = 'C12/read-with-reused-argument-objects-differs-from-a-fresh-loader' + (':' + '+'.join(mod) if mod else '')
+    elif len(set(st['loader'] for st in small)) == 2:
+        sig = 'C12/read-differs-from-a-fresh-loader-while-a-second-loader-is-alive'
+    elif any(st.get('open') for st in small):
+        sig = 'C12/read-after-open-on-a-used-loader-differs-from-a-fresh-loader'
+    else:
+        sig = 'C12/cache-not-transparent:history-of-%d' % len(small)
+    ctx.violation(sig, 'shared arguments %s; %s: the last read returned %s; a loader freshly opened on that log, given new equal '
+                  'argument objects, returns %s' % (describe(c), hist, brief(r['text']), brief(r['env'].fresh(r['call']))),
+                  shared_replay(envA, envB, c, src_form, small))
+
+
+def shifted_env(F, env, shift, name):
+    """The same log with every P1 time `shift` half seconds later (another t0, the same relative times)."""
+    e = Env(F, [(t, None if t2 is None else t2 + shift, s) for t, t2, s in env.spec], name)
+    return e
+
+
+# ---- measurement types with `details` under require_system_time --------------------------------------------
+DETAILS_CACHE_SIG = 'C12/require-system-time:type-with-measurement-details:answered-from-cache'
+DETAILS_FRESH_SIG = 'C12/require-system-time:type-with-measurement-details:fresh-read-differs-from-reader'
+_details_types = None
+
+
+def details_types(F):
+    """Registered types outside messages_with_system_time whose messages carry MeasurementDetails: get_system_time_ns() is
+    the reception time or NaN, never None."""
+    global _details_types
+    if _details_types is None:
+        M = F['M']
+        _details_types = set(int(t) for t, cls in M.message_type_to_class.items()
+                             if t not in M.messages_with_system_time and
+                             isinstance(getattr(cls(), 'details', None), M.MeasurementDetails))
+    return _details_types
+
+
+def details_culprit(env, c, got, want):
+    """require_system_time is set and the two results differ in types with measurement details only."""
+    if not c['rsys'] or c['inorder'] or not (got.startswith('D|') and want.startswith('D|')):
+        return False
+    det = details_types(env.F)
+    a, b = got.split('|')[1:], want.split('|')[1:]
+    if len(a) != len(b):
+        return False
+    diff = [x.split('/')[0] for x, y in zip(a, b) if x != y]
+    return bool(diff) and all(d.isdigit() and int(d) in det for d in diff)
+
+
+def gen_details_log(rng):
+    """RawIMUOutput / RawWheelSpeedOutput (every third one timestamped on reception) among Pose and EventNotification; every
+    P1 time distinct."""
+    n = rng.choice([8, 12, 18])
+    two = rng.random() < 0.3
+    t2 = rng.choice([20, 21, 40])
+    pool = rng.choice([[I, I, W, E, P], [I, E, P], [I, W, E], [I, W, W, E, E, P, A]])
+    spec = []
+    for _ in range(n):
+        t = rng.choice(pool)
+        spec.append((t, None if t in (E, R) else t2, rng.choice([0, 1]) if two else 0))
+        t2 += rng.choice([1, 1, 2])
+    if not any(s[0] == I for s in spec):
+        spec[-1] = (I, t2, 0)
+    if two:
+        spec[0] = (spec[0][0], spec[0][1], 0)
+        low = min(s[0] for s in spec)
+        pos = [i for i, s in enumerate(spec) if s[0] == low]
+        spec[pos[0]] = (low, spec[pos[0]][1], 0)
+        spec[pos[-1]] = (low, spec[pos[-1]][1], 1 if len(pos) > 1 else 0)
+    return spec
+
+
+def gen_details_history(rng, env, length):
+    """require_system_time reads of more types (all types / every type of the log / a details type with a system-timestamped
+    one), then of the details types among them with otherwise equal arguments - and the other way round."""
+    spec = env.spec
+    present = sorted(set(s[0] for s in spec))
+    det = [t for t in present if t in (I, W)]
+    base = gen_call(rng, spec, False, env.avail)
+    base.update(rsys=True, rp1=rng.random() < 0.15, ic=False, inorder=False, align=0, aligned=None, tform='enum', reopen=None)
+    if rng.random() < 0.6:
+        base['max'] = None
+    wide = dict(base, types=None if rng.random() < 0.5 else tuple(present))
+    narrow = dict(base, types=tuple(sorted(rng.sample(det, rng.choice(list(range(1, len(det) + 1)))))))
+    mid = dict(base, types=tuple(sorted(set(narrow['types']) | ({E} if E in present else {present[0]}))))
+    q = rng.random()
+    if q < 0.4:
+        h = [wide, narrow]
+    elif q < 0.55:
+        h = [narrow, wide]
+    elif q < 0.75:
+        h = [mid, narrow]
+    elif q < 0.85:
+        h = [wide, mid, narrow]
+    else:
+        h = [dict(gen_call(rng, spec, False, env.avail), rsys=rng.random() < 0.5)]
+    while len(h) < length:
+        d = mutate_call(rng, rng.choice(h), spec, False, env.avail)
+        if rng.random() < 0.6:
+            d['rsys'] = True
+        h.append(d)
+    return h[:max(length, 2)]
+
+
+def run_details(ctx, F, nlogs, per_log, maxlen):
+    rng = ctx.rng
+    for li in range(nlogs):
+        env = Env(F, gen_details_log(rng), 'details%d' % li)
+        ctx.count('logs_with_measurement_details_types')
+        seen = set()
+        for _ in range(per_log):
+            hist = gen_details_history(rng, env, rng.choice(list(range(2, maxlen + 1))))
+            ctx.count('histories_on_logs_with_measurement_details_types')
+            one_history(ctx, F, env, hist, None, None, None, None, model=False)
+            for c in hist:
+                if call_key(F, c) not in seen:
+                    seen.add(call_key(F, c))
+                    check_fresh_spec(ctx, env, c, env.fresh(c))
+                    ctx.count('fresh_spec_checked')
+
+
 # ---- the run ----------------------------------------------------------------------------------------------
-def one_history(ctx, F, env, hist, reg, drops, lines, pending):
+def one_history(ctx, F, env, hist, reg, drops, lines, pending, model=True):
     rng = ctx.rng
     out, hits = env.run_history(hist)
     avail_after = list(env.avail_after)
@@ -1259,6 +1598,8 @@ def one_history(ctx, F, env, hist, reg, drops, lines, pending):
                               'loader returns %s' % (' ; '.join('read(%s)' % describe(c) for c in small[:-1]), avail_after[drift[0]],
                                                      envs_at[drift[0]].avail, describe(small[-1]), brief(got[-1]),
                                                      brief(env.fresh_last(small))), replay_obj(env, small))
+    if not model:
+        return          # logs the Lean model has no registry entry for: judged by the fresh loader (and the reader) only
     # stage C
     for c in hist:
         if c['types'] is not None and c.get('tform', 'enum') != 'enum':
@@ -1287,7 +1628,7 @@ def one_history(ctx, F, env, hist, reg, drops, lines, pending):
     ctx.case(line, nontrivial=nontrivial)
 
 
-def run(ctx, nlogs, per_log, maxlen, fresh_spec=True):
+def run(ctx, nlogs, per_log, maxlen, fresh_spec=True, shared_per_log=5, details=(2, 8)):
     F = fe()
     reg = registry_text(F)
     rng = ctx.rng
@@ -1336,6 +1677,15 @@ def run(ctx, nlogs, per_log, maxlen, fresh_spec=True):
     for h in corpus:
         one_history(ctx, F, env0, h, reg, drops, lines, pending)
         ctx.count('corpus_histories')
+    # argument objects used again by the caller: the corpus pair (t0 = 1.0 s / 3.0 s) first
+    for tr in [(1.0, 2.5, False), (0.5, None, False), (None, 1.5, False), (1.0, 2.5, False, 4), (2.0, 4.5, True), None]:
+        for pat in SHARED_PATTERNS[:6]:
+            c = dict(D, types=rng.choice([(P, A), (P, G, A, E), None, (P,)]), tr=tr, src=rng.choice([None, (0,), (0, 1)]),
+                     tform=rng.choice(['enum', 'set']))
+            if c['types'] is None:
+                c['tform'] = 'enum'
+            judge_shared_session(ctx, F, env0, env0.alt, c, rng.choice(sorted(SRC_FORMS)),
+                                 [{'loader': n, 'open': op, 'over': {}} for n, op in pat])
     for li in range(nlogs):
         nan_p1 = rng.random() < 0.25
         spec = gen_log(rng, nan_p1, nfill=nfill)
@@ -1373,6 +1723,23 @@ def run(ctx, nlogs, per_log, maxlen, fresh_spec=True):
             one_history(ctx, F, env, hist, reg, drops, lines, pending)
             if ctx.elapsed() > (900 if ctx.thorough else 70):
                 break
+        # the same argument objects passed to reads of this log and of another one (the previous log, or this log with every
+        # P1 time shifted: another t0, the same relative times), on two loaders alive at once / after open() on a used loader
+        big = any(x[0] == Z for x in spec)
+        other = None
+        for _ in range(shared_per_log if not big else 1):
+            if ctx.elapsed() > (1000 if ctx.thorough else 80):
+                break
+            if big or rng.random() < 0.4:
+                envB = env.alt
+            else:
+                if other is None:
+                    other = shifted_env(F, env, rng.choice([3, 10, 36]), 'log%d_shifted' % li)
+                envB = other
+            a, b = (env, envB) if rng.random() < 0.7 else (envB, env)
+            c, form, steps = gen_shared_session(rng, a, b)
+            judge_shared_session(ctx, F, a, b, c, form, steps)
+    run_details(ctx, F, details[0], details[1], maxlen)
     # stage D (2): fresh-read specification against the reader, and the Lean specification `freshSpec` against the code
     spec_lines, spec_pending = [], []
     if fresh_spec:
@@ -1483,7 +1850,7 @@ def check(ctx):
     ctx.prove(MODULES)
     try:
         if ctx.thorough:
-            run(ctx, 150, 80, 4)
+            run(ctx, 150, 80, 4, shared_per_log=10, details=(10, 20))
         else:
             run(ctx, 30, 40, 3)
     except fv.InfraError:
@@ -1498,6 +1865,17 @@ def replay(ctx, path):
     F = fe()
     spec = [(int(t), None if t2 is None else int(t2), int(s)) for t, t2, s in r['log']]
     env = Env(F, spec, 'replay')
+
+    def call_of(c):
+        c = dict(DEFAULT_CALL, **c)
+        for k in ('types', 'src', 'aligned', 'tr'):
+            if c[k] is not None:
+                c[k] = tuple(c[k])
+        return c
+    if r.get('steps'):
+        envB = Env(F, [(int(t), None if t2 is None else int(t2), int(s)) for t, t2, s in r['other_log']], 'replay_other')
+        judge_shared_session(ctx, F, env, envB, call_of(r['shared_call']), r.get('source_ids_container', 'list'), r['steps'])
+        return fv.finish(ctx, 'proof', None)
     if r.get('other_log'):
         env.alt = Env(F, [(int(t), None if t2 is None else int(t2), int(s)) for t, t2, s in r['other_log']], 'replay_other')
     hist = []
